@@ -728,7 +728,7 @@ where
                 ThreadOp::Drop((*site, *arg), obj)
             }
             ConcOp::Act(Action::Noop) => ThreadOp::Noop,
-            ConcOp::Act(Action::Abort { .. }) | ConcOp::Act(Action::Extend(_)) => unreachable!(),
+            ConcOp::Act(Action::Abort { .. }) | ConcOp::Act(Action::Extend(_)) | ConcOp::Act(Action::Batch(_)) => unreachable!(),
             ConcOp::Start(c) => ThreadOp::Start(c.clone(), false),
             ConcOp::View => ThreadOp::View,
         }));
